@@ -158,6 +158,11 @@ package analysis
 //@   loop 4 invariant awf(a)
 //@   loop 4 invariant globalDecls != a.decl && globalDecls != a.extraPredicates && globalDecls != nil
 //@   loop 4 invariant declsOK(globalDecls)
+// C03: a predicate that has a rule is intensional only - whatever the order of its fact clauses and rules in the source:
+// when the program information is put together no predicate is in both sets (stratification skips mentions of
+// extensional predicates, so a predicate left in both would lose its dependency edges).
+//@   loop 8 invariant forall s ast.PredicateSym :: s in seen ==> !(s in edbSymbols)
+//@   guard call CheckTemporalRecursion: forall s ast.PredicateSym :: s in idbSymbols ==> !(s in edbSymbols)
 
 // Analysis entry points are opaque for the interpreter's proofs: they may edit the predicate map they are given.
 //@ func AnalyzeOneUnit(unit, extraPredicates)
